@@ -162,7 +162,7 @@ func twinApply(t *twinState, op string, f func(bc *blockchain.Blockchain) error)
 	}
 	twinExecs.Add(1)
 	n := newTwinState(t.ns, d)
-	if twinOpsN.Add(1) > 30000 { // bound the memo (it is only a cache)
+	if twinOpsN.Add(1) > 6000 { // bound the memo (it is only a cache)
 		twinOps.Range(func(k, _ any) bool { twinOps.Delete(k); return true })
 		twinOpsN.Store(0)
 	}
@@ -579,7 +579,7 @@ func twinObserve(t *twinState, p *probe) *obs {
 		return o.(*obs)
 	}
 	o := observe(t.node(), p)
-	if twinObsN.Add(1) > 30000 {
+	if twinObsN.Add(1) > 4000 {
 		twinObsCache.Range(func(k, _ any) bool { twinObsCache.Delete(k); return true })
 		twinObsN.Store(0)
 	}
